@@ -64,7 +64,7 @@ def run(ctx):
     rnd = random.Random(ctx.seed + 101)
     n = 240 if ctx.quick else 1500
     scens = [gl.history(rnd, "n%d" % i, steps=rnd.randint(3, 9), with_construct=True, with_transform=True, with_coef=(i % 4 == 0)) for i in range(n)]
-    scens += [arbitrary_order(rnd, "a%d" % i) for i in range(n // 3)] + [KNOWN_INPUT, KNOWN_INPUT_W] + [fixed_target(rnd, "f%d" % i) for i in range(n // 3)]
+    scens += [arbitrary_order(rnd, "a%d" % i) for i in range(n // 3)] + [KNOWN_INPUT, KNOWN_INPUT_W] + [gl.local3d_history(rnd, "v%d" % i) for i in range(n // 8)] + [fixed_target(rnd, "f%d" % i) for i in range(n // 3)]
     gen = gl.mc_and_scripts(ctx, ['localp2', 'globalcc', 'seq'], rnd, 80 if ctx.quick else 800, maxlen=None if ctx.quick else 5, genlen=3 if ctx.quick else 4, mc=False)
     gl.run_grid(ctx, gen + [("nodal", scens), ("mixed", gl.mixed_family(rnd, max(40, n // 5)))], gl.OBS_NODAL, "C01")
     ctx.assume("reproduction is judged by an observer at 1e-9 relative tolerance on integer token values; the spec decides when the property applies (local polynomial grids: all parents loaded)")
